@@ -103,6 +103,7 @@ type frame struct {
 	variants map[*ssa.BasicBlock][]Term
 	curBlock *ssa.BasicBlock
 	autoInv  map[*ssa.BasicBlock][]*ssa.Alloc
+	headSt   map[*ssa.BasicBlock]*State // per loop: the state at its head (this iteration), for step clauses
 }
 
 type loopInfo struct {
